@@ -182,6 +182,10 @@ func weights(profile string) map[string]int {
 		w["resize"], w["reopen"] = 12, 8
 	case "rebuild":
 		w["rebuild"], w["snap"], w["write"], w["apply"], w["punch"], w["reopen"], w["delete"] = 14, 14, 34, 10, 5, 4, 5
+	case "rebuildreal":
+		// SetRevisionCounter from outside is not part of this protocol: AddReplica skips the transfer
+		// when chain and counter already agree
+		w["rebuild"], w["snap"], w["write"], w["apply"], w["punch"], w["reopen"], w["delete"], w["setrev"] = 7, 14, 34, 10, 5, 4, 5, 0
 	case "clone":
 		w["clone"], w["snap"], w["write"], w["delete"], w["reopen"], w["setrev"], w["revert"] = 7, 20, 34, 8, 8, 2, 4
 	case "modes":
@@ -363,7 +367,12 @@ func generate(rng *rand.Rand, steps int, profile string) ([]string, []string, ma
 				continue
 			}
 			g.snapN++
-			g.do(fmt.Sprintf("rbbegin r%d", g.snapN))
+			if profile == "rebuildreal" {
+				g.do(fmt.Sprintf("rbbegin r%d real", g.snapN))
+				g.feat["rebuild-real-agents"] = true
+			} else {
+				g.do(fmt.Sprintf("rbbegin r%d", g.snapN))
+			}
 			for rng.Intn(3) != 0 {
 				g.write(rng)
 			}
